@@ -3,7 +3,7 @@
 (* over a menu that contains each transition type, numeric and symbolic     *)
 (* magnitudes, a multi-transition event, a Laurent rate, a saturating rate, *)
 (* a derived parameter and explicit ODE terms.                              *)
-EXTENDS ModelDef, Json, Decompose
+EXTENDS ModelDef, Json, Decompose, NextGen
 
 CONSTANT DumpOn,     \* TRUE: print every live state (mode G replays them into PyGOM)
          DumpDerivs  \* TRUE: the printed states also carry the derivative objects of C03
@@ -63,6 +63,9 @@ Dump ==
 
 (* beyond the listed properties: decomposing the ODE of any reachable definition and reading it back *)
 InvDecomposeRoundTrip == RoundTrip(Ode(CurDef)) /\ RatesPositive(Ode(CurDef))
+
+(* beyond the listed properties: the next-generation decomposition, for every non-empty proper subset of the states *)
+InvNextGen == NextGenLaws(CurDef)
 
 \* vacuity guards: the interesting antecedents do occur
 SomeClosed   == ~(Len(procs) >= 2 /\ AllBetweenStates(CurDef))
